@@ -5,6 +5,7 @@ mod checks;
 mod gen;
 mod oracle;
 mod run;
+mod scalar;
 mod setup;
 mod special;
 mod util;
@@ -20,6 +21,9 @@ fn main() {
     }
     if args[1] == "--child-build" {
         std::process::exit(checks::c05::child_main());
+    }
+    if args[1] == "--child-probe" {
+        std::process::exit(checks::c17::child_main());
     }
     if args[1] == "--child-big" {
         std::process::exit(checks::c05::child_big(args[2].parse().unwrap_or(64)));
